@@ -90,12 +90,12 @@ class MethodMixin(object):
         cands = [c for c, (m, cd) in self.repo.classes.items()
                  if name in cd["methods"] and not name.startswith("__")]
         if cands and name not in ("get", "close", "open", "send", "log"):
-            if recv[0] in ("attr", "param", "unknown", "sub", "call", "loopout",
+            if recv[0] in ("attr", "param", "unknown", "sub", "call", "loopvar",
                            "elem", "item"):
                 ty = None
                 if recv[0] == "elem":
                     ty = self.elem_type(recv)
-                if ty is None and len(cands) == 1 and recv[0] in ("param", "elem", "loopout"):
+                if ty is None and len(cands) == 1 and recv[0] in ("param", "elem", "loopvar"):
                     ty = cands[0]
                 if ty is not None:
                     obj = ("obj", ty, ("sym", recv))
@@ -212,7 +212,7 @@ class MethodMixin(object):
             state.wrote = True
             self.note_write(stmt, binds, state, site, dbn)
         elif stmt.kind == "select":
-            self.note_select(stmt, binds, state, site, dbn)
+            self.note_select(stmt, binds, state, site, dbn, ev)
         elif stmt.mutating:
             state.dirty = state.dirty | {dbn}
             state.wrote = True
@@ -229,7 +229,7 @@ class MethodMixin(object):
             raise
         return None
 
-    def note_select(self, stmt, binds, state, site, dbn):
+    def note_select(self, stmt, binds, state, site, dbn, ev=None):
         eq = binds.get("where_eq")
         if eq is None:
             return
@@ -273,6 +273,9 @@ class MethodMixin(object):
                                 (c, eq[c]) in cols:
                             n += 1
                     state.facts[("len", rows)] = n
+        if ev is not None:
+            ev["verdict"] = verdict
+            ev["nrows"] = state.facts.get(("len", rows))
         if verdict is not None:
             state.facts[row] = verdict
             if verdict:
